@@ -29,6 +29,12 @@ fn main() {
         Some("replay") => {
             std::process::exit(campaign::replay(&args[2]));
         }
+        Some("minimise") => {
+            // simctl minimise <replay file> <out file> [budget] [tripwire ms]
+            let budget = args.get(4).and_then(|s| s.parse().ok()).unwrap_or(300usize);
+            let tripwire = args.get(5).and_then(|s| s.parse().ok()).unwrap_or(30_000u64);
+            std::process::exit(campaign::minimise_replay(&args[2], &args[3], budget, tripwire));
+        }
         _ => {
             eprintln!("usage: simctl gen <seed> <out-prefix> | check <C21|C22|C23> [--tier quick|thorough] [--workloads N] | replay <file>");
             std::process::exit(2);
